@@ -3,6 +3,8 @@ package c12
 import (
 	"encoding/json"
 	"fmt"
+	"strings"
+	"unicode/utf16"
 
 	"hv/fw"
 	vu "hv/valuni"
@@ -17,11 +19,29 @@ type ProposedFinding struct {
 	Witness fw.Case
 }
 
+// asciiJSON escapes every non-ASCII rune as \\uXXXX so that the line survives tools that
+// re-normalise Unicode text (the witness of the NFC finding depends on a decomposed string).
+func asciiJSON(b []byte) string {
+	var sb strings.Builder
+	for _, r := range string(b) {
+		switch {
+		case r < 128:
+			sb.WriteRune(r)
+		case r > 0xFFFF:
+			r1, r2 := utf16.EncodeRune(r)
+			fmt.Fprintf(&sb, "\\u%04x\\u%04x", r1, r2)
+		default:
+			fmt.Fprintf(&sb, "\\u%04x", r)
+		}
+	}
+	return sb.String()
+}
+
 // Line renders the finding in the format of known_findings.txt.
 func (p ProposedFinding) Line() string {
 	w, _ := json.Marshal(map[string]any{"kind": p.Witness.Kind, "payload": p.Witness.Payload, "tags": p.Witness.Tags})
 	tail, _ := json.Marshal(map[string]any{"witness": json.RawMessage(w), "sig": p.Sig, "tag": p.Tag})
-	return fmt.Sprintf("open: property=C12 %s %s :: %s", p.Name, p.What, tail)
+	return fmt.Sprintf("open: property=C12 %s %s :: %s", p.Name, p.What, asciiJSON(tail))
 }
 
 func witness(route, lib string, t vu.Type, tag string, pairs ...pairSpec) fw.Case {
@@ -34,7 +54,7 @@ func ProposedFindings() []ProposedFinding {
 		{
 			Name: kfOptWrap,
 			What: "DeepCast(v, ?T) of both value libraries wraps a non-option v into Some(v) without checking or converting it against T (\"abc\" as ?int is admitted as Some(\"abc\"))",
-			Sig:  `^c12:(vm|tree):(api|as|let|host-arg|host-ret):(admit-nonconforming|result-not-typed):opt-wrap$`,
+			Sig:  `^c12:(vm|tree):(api|as|let|host-arg|host-ret):(admit-nonconforming|result-not-typed):opt-wrap$|^c12:vm:host-arg:callee-got-untyped:opt-wrap$`,
 			Tag:  cOptWrap,
 			Witness: witness("api", "vm", vu.Opt(vu.Int()), cOptWrap,
 				pairSpec{V: vu.StrV("abc")}, pairSpec{V: vu.FloatV(2.5), Explicit: true}),
